@@ -22,9 +22,12 @@
 (***************************************************************************)
 EXTENDS Naturals, Integers, Sequences, FiniteSets, TLC
 
-CONSTANTS Env,        \* option map: environment variables visible to interpolation
-          LocalDir,   \* text: what redun.cli.get_config_dir() returns
-          NewDir      \* text: the replace_config_dir argument
+\* the environment the driver establishes (TLC config files cannot express nested tuples, so
+\* these are definitions): E=v and c=w are visible to interpolation; REDUN_CONFIG=/d is what
+\* redun.cli.get_config_dir() returns; "." is the replace_config_dir argument used by subrun
+Env == << << <<69>>, <<118>> >>, << <<99>>, <<119>> >> >>
+LocalDir == <<47, 100>>
+NewDir == <<46>>
 
 DOLLAR == 36  LBRACE == 123  RBRACE == 125  COLON == 58  DOT == 46
 Missing == <<-1>>
@@ -124,14 +127,21 @@ VisibleFrom(names, i, vis) ==
 Visible(cfg) == VisibleFrom([i \in 1..Len(cfg.sections) |-> cfg.sections[i].name], 1, {})
 Constructible(cfg) == Visible(cfg) # ErrN
 
-\* what a user of the Config object sees: visible section -> key -> effective value (or error)
-OptKeys(cfg, name) == Keys(Items(cfg, name))                       \* SectionProxy iteration order
+\* what a user of the Config object sees: for every visible section (file order) the keys in
+\* SectionProxy iteration order with their effective value, Missing where reading it raises
+OptKeys(cfg, name) == Keys(Items(cfg, name))
 SectionView(cfg, name) ==
   [i \in 1..Len(OptKeys(cfg, name)) |->
      LET k == OptKeys(cfg, name)[i]
          e == Effective(cfg, name, k)
      IN <<k, IF e.ok THEN e.text ELSE Missing>>]
-View(cfg) == {<<n, {SectionView(cfg, n)[i] : i \in 1..Len(OptKeys(cfg, n))}>> : n \in Visible(cfg)}
+ViewSeq(cfg) == LET visible == Visible(cfg)
+                    vis == SelectSeq(cfg.sections, LAMBDA sec : sec.name \in visible)
+                IN [j \in 1..Len(vis) |-> [name |-> vis[j].name, opts |-> SectionView(cfg, vis[j].name)]]
+\* the same as a set (order of sections and keys is immaterial to the property)
+ViewSet(view) == {<<view[j].name, {<<view[j].opts[i][1], view[j].opts[i][2]>> : i \in 1..Len(view[j].opts)}>> :
+                  j \in 1..Len(view)}
+AllOK(view) == \A j \in 1..Len(view) : \A i \in 1..Len(view[j].opts) : view[j].opts[i][2] # Missing
 
 ---------------------------------------------------------------------------
 (* get_config_dict *)
@@ -146,22 +156,18 @@ EscapeDollars(s) == IF s = <<>> THEN <<>>
                     ELSE (IF s[1] = DOLLAR THEN <<DOLLAR, DOLLAR>> ELSE <<s[1]>>) \o EscapeDollars(Tail(s))
 
 ErrD == <<[name |-> Missing, opts |-> <<>>]>>
-AllEffective(cfg) == \A n \in Visible(cfg) : \A i \in 1..Len(OptKeys(cfg, n)) :
-                        Effective(cfg, n, OptKeys(cfg, n)[i]).ok
 DictValue(t, replace, fixed) ==
   LET t1 == IF replace THEN ReplaceAll(t, LocalDir, NewDir) ELSE t IN
   IF fixed THEN EscapeDollars(t1) ELSE t1                          \* as built: DollarNotReescaped
-\* sections in file order restricted to the visible ones (order is immaterial for read_dict when
-\* the visible names are prefix free, which they are by construction of Visible)
-ToDict(cfg, replace, fixed) ==
-  IF ~AllEffective(cfg) THEN ErrD                                  \* an Interpolation*Error escapes
-  ELSE LET vis == SelectSeq(cfg.sections, LAMBDA sec : sec.name \in Visible(cfg))
-       IN [j \in 1..Len(vis) |->
-             LET n == vis[j].name IN
-             [name |-> n,
-              opts |-> [i \in 1..Len(OptKeys(cfg, n)) |->
-                          <<OptKeys(cfg, n)[i],
-                            DictValue(Effective(cfg, n, OptKeys(cfg, n)[i]).text, replace, fixed)>>]]]
+\* the dictionary from the view: every value is read (an Interpolation*Error escapes: ErrD),
+\* optionally rewritten, and -- in the contract only -- its dollars are escaped again
+DictOf(view, replace, fixed) ==
+  IF ~AllOK(view) THEN ErrD
+  ELSE [j \in 1..Len(view) |->
+          [name |-> view[j].name,
+           opts |-> [i \in 1..Len(view[j].opts) |->
+                       <<view[j].opts[i][1], DictValue(view[j].opts[i][2], replace, fixed)>>]]]
+ToDict(cfg, replace, fixed) == DictOf(ViewSeq(cfg), replace, fixed)
 
 (* read_dict: every value goes through ExtendedInterpolation.before_set *)
 RECURSIVE StripEscaped(_), StripRefs(_)
@@ -181,30 +187,30 @@ ReadDict(d) ==
   ELSE LET c == [defaults |-> <<>>, sections |-> d] IN IF Constructible(c) THEN c ELSE ErrC
 
 ---------------------------------------------------------------------------
-(* The law (C35) *)
-HasLiteralDollar(cfg) == \E n \in Visible(cfg) : \E i \in 1..Len(OptKeys(cfg, n)) :
-                            LET e == Effective(cfg, n, OptKeys(cfg, n)[i]) IN e.ok /\ HasDollar(e.text)
-\* preconditions of the property: the configuration exists and all its values can be read
-WellFormed(cfg) == Constructible(cfg) /\ AllEffective(cfg)
+(* The law (C35), over a configuration's view (computed once) *)
+HasLiteralDollar(view) == \E j \in 1..Len(view) : \E i \in 1..Len(view[j].opts) :
+                             view[j].opts[i][2] # Missing /\ HasDollar(view[j].opts[i][2])
 \* to the dictionary and back: same sections, same nesting, same effective values
-RoundTrip(cfg, fixed) == LET c2 == ReadDict(ToDict(cfg, FALSE, fixed)) IN
-                         c2 # ErrC /\ AllEffective(c2) /\ View(c2) = View(cfg)
-ContractOK(cfg) == WellFormed(cfg) => RoundTrip(cfg, TRUE)
-\* the as-built code breaks the law exactly when some effective value contains a literal dollar
-AsBuiltOK(cfg) == WellFormed(cfg) => (HasLiteralDollar(cfg) <=> ~RoundTrip(cfg, FALSE))
+RoundTrip(view, fixed) == LET c2 == ReadDict(DictOf(view, FALSE, fixed)) IN
+                          c2 # ErrC /\ LET v2 == ViewSeq(c2) IN AllOK(v2) /\ ViewSet(v2) = ViewSet(view)
 \* replacing the config dir: same sections and keys; a value changes iff it contains LocalDir,
 \* and then every occurrence is replaced
-ReplaceOK(cfg) ==
-  WellFormed(cfg) =>
-    LET d0 == ToDict(cfg, FALSE, FALSE)
-        d1 == ToDict(cfg, TRUE, FALSE)
-    IN /\ Len(d0) = Len(d1)
-       /\ \A j \in 1..Len(d0) :
-            /\ d0[j].name = d1[j].name /\ Keys(d0[j].opts) = Keys(d1[j].opts)
-            /\ \A i \in 1..Len(d0[j].opts) :
-                 LET v == d0[j].opts[i][2]
-                     w == d1[j].opts[i][2]
-                 IN /\ (~Contains(v, LocalDir) => w = v)
-                    /\ (Contains(v, LocalDir) => w # v \/ LocalDir = NewDir)
-                    /\ (~Contains(NewDir, LocalDir) => ~Contains(w, LocalDir))
+ReplaceLaw(d0, d1) ==
+  /\ Len(d0) = Len(d1)
+  /\ \A j \in 1..Len(d0) :
+       /\ d0[j].name = d1[j].name /\ Keys(d0[j].opts) = Keys(d1[j].opts)
+       /\ \A i \in 1..Len(d0[j].opts) :
+            LET v == d0[j].opts[i][2]
+                w == d1[j].opts[i][2]
+            IN /\ (~Contains(v, LocalDir) => w = v)
+               /\ (Contains(v, LocalDir) => w # v \/ LocalDir = NewDir)
+               /\ (~Contains(NewDir, LocalDir) => ~Contains(w, LocalDir))
+\* preconditions of the property: the configuration exists and all its values can be read
+WellFormedV(cfg, view) == Constructible(cfg) /\ AllOK(view)
+ContractOKV(cfg, view) == WellFormedV(cfg, view) => RoundTrip(view, TRUE)
+\* the as-built code breaks the law exactly when some effective value contains a literal dollar
+AsBuiltOKV(cfg, view) == WellFormedV(cfg, view) => (HasLiteralDollar(view) <=> ~RoundTrip(view, FALSE))
+ReplaceOKV(cfg, view) == WellFormedV(cfg, view) =>
+                           /\ ReplaceLaw(DictOf(view, FALSE, FALSE), DictOf(view, TRUE, FALSE))
+                           /\ ReplaceLaw(DictOf(view, FALSE, TRUE), DictOf(view, TRUE, TRUE))
 =============================================================================
